@@ -58,7 +58,7 @@ int RawEntry::SetSamplesPerFrame(const char *spf, int recode)
     r = gd_alter_entry(D->D, E.field, &E, recode);
 
     if (!r)
-      r = gd_get_constant(D->D, spf, GD_UINT16, &E.u.raw.spf);
+      r = gd_cxx_get_scalar(D->D, spf, GD_UINT16, &E.u.raw.spf);
   }
   
   return r;
